@@ -22,6 +22,7 @@ func LookupName(dip *inode.Inode, op *fstxn.FsTxn, name nfstypes.Filename3) (com
 	if dip.Kind != nfstypes.NF3DIR {
 		return common.NULLINUM, 0
 	}
+	verifName("name-lookup", op, uint64(dip.Inum), string(name))
 	var inum = common.NULLINUM
 	var finalOffset uint64 = 0
 	if dip.Dcache == nil {
@@ -42,6 +43,7 @@ func AddName(dip *inode.Inode, op *fstxn.FsTxn, inum common.Inum, name nfstypes.
 	if dip.Dcache == nil {
 		mkDcache(dip, op)
 	}
+	verifName("name-add", op, uint64(dip.Inum), string(name))
 	off, ok := AddNameDir(dip, op, inum, name, dip.Dcache.Lastoff)
 	if ok {
 		dip.Dcache.Lastoff = off
